@@ -402,6 +402,11 @@ def _frame_replay(task, res, seed, what):
             s = {}
         try:
             task.native_code(s)
+        except NotImplementedError:
+            try:
+                task.native_agree(s)
+            except Exception:  # noqa: BLE001
+                pass
         except Exception:  # noqa: BLE001
             pass
         after = statewatch.snapshot()
